@@ -33,7 +33,10 @@ class Default:
         return f"<default m{self.mid}.{self.name}>"
 
 
-class UserExc(Exception):
+class UserExc(KeyError):
+    """raised by generated method bodies.  A KeyError on purpose: the library looks things up in dictionaries all the
+    time, and an exception that escapes a user's method must never be taken for one of its own misses"""
+
     def __init__(self, mid):
         super().__init__(mid)
         self.mid = mid
